@@ -21,8 +21,9 @@
    [fault_follows N]: from any reachable state in which an operation of goroutine p fails
    (step g_ioe_fail), along EVERY execution, (a) until the context is cancelled p has not left
    and has taken fewer than |h| + 2 steps of its own; (b) if h waits for nobody, p can move in
-   every state until then, and an execution can only stop with the context cancelled and every
-   goroutine exited; (c) once cancelled, theorems A + B apply. *)
+   every state until then, p ALONE (a run of its own steps only, at most |h| + 2 of them) reaches
+   a cancelled state from every later state, and an execution can only stop with the context
+   cancelled and every goroutine exited; (c) once cancelled, theorems A + B apply. *)
 From Coq Require Import List Arith Bool.
 Import ListNotations.
 From Coq Require Import String.
@@ -102,6 +103,8 @@ Definition fault_follows (N : net) : Prop :=
     (cancelled g2 = true \/ (count_occ Nat.eq_dec tr p < cmL h + 2 /\ procs g2 p <> Exited)) /\
     (cc true (qx N p f) false h = true ->
        (cancelled g2 = true \/ enabled N D io_ret p g2) /\
+       (exists tr' g3, lsteps N D io_ret tr' g2 g3 /\ cancelled g3 = true /\ Forall (eq p) tr' /\
+                       length tr' <= cmL h + 2) /\
        (stuck N D io_ret g2 -> cancelled g2 = true /\ forall q, procs g2 q = Exited)) /\
     (cancelled g2 = true ->
        (forall n g3, steps N D io_ret n g2 g3 -> n <= total N D g2) /\
